@@ -1460,6 +1460,20 @@ class Interp:
     def _ext_call(self, name, args, kwargs):
         if name in self.ext_stubs:
             return self.ext_stubs[name](self, args, kwargs)
+        if name in ("operator.attrgetter", "attrgetter") and len(args) == 1 and isinstance(args[0], str):
+            attr_ = args[0]
+
+            def _getter(interp, a, kw, _attr=attr_):
+                return interp.getattr(a[0], _attr)
+            _getter._opsa_stub = True
+            return _getter
+        if name in ("operator.itemgetter", "itemgetter") and len(args) == 1:
+            idx_ = args[0]
+
+            def _igetter(interp, a, kw, _idx=idx_):
+                return a[0][_idx]
+            _igetter._opsa_stub = True
+            return _igetter
         last = name.split(".")[-1]
         if any(isinstance(a, Unknown) for a in args) and last in ("len", "int", "float", "str", "abs", "min", "max", "sum", "round", "bool", "sorted", "list", "tuple", "set", "any", "all", "repr", "hash"):
             if last == "bool" and len(args) == 1 and not kwargs:
